@@ -22,20 +22,23 @@ TOL_FIT = 1e-6
 TOL_STAGED = 2e-6
 
 
-def ref_fit(mode, src, dst):
-    """Independent run of the documented optimiser -> (A, b)."""
+def ref_fit(mode, src, dst, start=None):
+    """Independent run of the documented optimiser -> (A, b); start = (A0, b0) the balance the
+    search starts from (default: the identity)."""
+    src, dst = np.asarray(src, dtype=float), np.asarray(dst, dtype=float)
+    a0, b0 = (np.eye(3), np.zeros(3)) if start is None else start
     if mode == "diagonal":
         def f(p):
             return np.sum((src @ np.diag(p) - dst) ** 2)
-        x0 = np.ones(3)
+        x0 = np.diag(a0).copy()
     elif mode == "linear":
         def f(p):
             return np.sum((src @ p.reshape((3, 3)) - dst) ** 2)
-        x0 = np.eye(3).flatten()
+        x0 = np.array(a0, dtype=float).flatten()
     else:
         def f(p):
             return np.sum((src @ p[:9].reshape((3, 3)) + p[9:12] - dst) ** 2)
-        x0 = np.concatenate((np.eye(3).flatten(), np.zeros(3)))
+        x0 = np.concatenate((np.array(a0, dtype=float).flatten(), np.array(b0, dtype=float)))
     res = scipy.optimize.minimize(f, x0, method="Powell", tol=1e-6,
                                   options={"maxiter": 1000, "disp": False})
     if mode == "diagonal":
@@ -128,6 +131,33 @@ def subset(arr, which):
     return arr[:4] if which == "head" else arr[4:]
 
 
+# data classes of the swatches handed to the fit: the balance is a scale-free least-squares fit, and
+# swatches arrive as float64, as float32 (what ColorCorrection extracts and passes on), or on the
+# 8 / 16 bit scale (ColorChecker.swatches_RGB is uint8) as integer-typed or real arrays
+DATA = ("unit", "f32", "u8", "u16", "x255")
+
+
+def cast_swatches(src, data):
+    """-> (swatches of the data class, scale of their values)."""
+    if data == "f32":
+        return src.astype(np.float32), 1.0
+    if data == "u8":
+        return np.round(np.clip(src, 0.0, 1.0) * 255.0).astype(np.uint8), 255.0
+    if data == "u16":
+        return np.round(np.clip(src, 0.0, 1.0) * 65535.0).astype(np.uint16), 65535.0
+    if data == "x255":
+        return src * 255.0, 255.0
+    return src, 1.0
+
+
+def assert_untouched(what, now, before, tags):
+    """Fitting / applying a balance reads its arguments: the caller's swatches (ColorCorrection
+    passes views of its stored reference swatches) and image are the same afterwards."""
+    if now.dtype != before.dtype or now.shape != before.shape or not np.array_equal(now, before):
+        raise Violation(f"argument-modified:{what}", f"the {what} array handed to the balance was "
+                        f"modified in place", tags)
+
+
 @st.composite
 def swatch_specs(draw):
     layout = draw(st.sampled_from(["4x6", "flat"]))
@@ -147,9 +177,14 @@ def _nonsym(a):
 # 1. recovers_exact_map
 # ---------------------------------------------------------------------------------------
 
+# "adaptive-default": AdaptiveBalance.find_balance without a mode (documented default: affine);
+# "call-adaptive": the callable form of AdaptiveBalance (fits with the default mode)
 VARIANTS = ["white", "color", "affine", "adaptive-diagonal", "adaptive-linear", "adaptive-affine",
-            "fn-white", "fn-color", "fn-affine", "call-white", "call-color", "call-affine"]
-VMODE = {"white": "diagonal", "color": "linear", "affine": "affine"}
+            "fn-white", "fn-color", "fn-affine", "call-white", "call-color", "call-affine",
+            "adaptive-default", "call-adaptive"]
+VMODE = {"white": "diagonal", "color": "linear", "affine": "affine", "adaptive": "affine",
+         "default": "affine"}
+STARTS = ("fresh", "prefit", "manual")
 
 
 def gen_exact(tier):
@@ -165,6 +200,11 @@ def gen_exact(tier):
         "truth": st.sampled_from(["same", "same", "same", "smaller", "bigger", "offset", "offset",
                                   "identity"]),
         "mseed": st.integers(0, 2**20),
+        # data class of the swatches (see DATA) and, for the plain classes and their callable form,
+        # the state of the object before the fit: fresh, fitted before to other (noisy) targets,
+        # or parameters written by hand - the search starts at the current balance
+        "data": st.sampled_from(["unit", "unit"] + list(DATA[1:])),
+        "start": st.sampled_from(["fresh", "fresh", "prefit", "manual"]),
     })
 
 
@@ -184,13 +224,18 @@ def enum_exact(tier):
 def _variant_mode(variant):
     head, _, tail = variant.partition("-")
     if head == "adaptive":
-        return tail
+        return VMODE.get(tail, tail)
     return VMODE[tail or head]
 
 
 def check_recovers_exact_map(case):
     sw, variant = case["sw"], case["variant"]
-    src = make_swatches(sw)
+    data = case.get("data", "unit")  # replays recorded before the keys existed
+    head = variant.split("-")[0]
+    start = case.get("start", "fresh") if head in ("white", "color", "affine", "call") \
+        and variant != "call-adaptive" else "fresh"
+    src, scale = cast_swatches(make_swatches(sw), data)
+    src_f = src.astype(float)
     rng = np.random.default_rng(case["mseed"])
     mode = _variant_mode(variant)
     tmode = mode
@@ -203,31 +248,60 @@ def check_recovers_exact_map(case):
     if struct == "offset" and mode != "affine":
         bigger, tmode = True, "affine"  # a pure colour shift is not a diagonal / linear map
     a, b = make_map(rng, tmode, struct)
-    dst = ref_apply(src, a, b)
-    img = rng.integers(0, 9, size=(3, 4, 3)) / 8.0
+    b = b * scale
+    dst = ref_apply(src_f, a, b)
+    if data == "f32":
+        dst = dst.astype(np.float32)  # the reference swatches of a colour checker are float32
+    dst_f = dst.astype(float)
+    img = scale * rng.integers(0, 9, size=(3, 4, 3)) / 8.0
     if bigger:
         img = np.concatenate((np.eye(3), np.zeros((1, 3))), axis=0)  # unit colours and black
-    tags = {"variant": variant, "mode": mode, "truth": tmode, "layout": sw["layout"], "map": struct}
-    head = variant.split("-")[0]
+    tags = {"variant": variant, "mode": mode, "truth": tmode, "layout": sw["layout"], "map": struct,
+            "data": data, "start": start}
+    # max-abs tolerance on the swatches: optimiser tolerance relative to the scale of the data
+    # (+ the rounding of float32 targets, which makes the map inexact by half an ulp)
+    tol = TOL_FIT * scale + (2.0 ** -23 * float(np.abs(dst_f).max()) if data == "f32" else 0.0)
+    src0, dst0, img0 = src.copy(), dst.copy(), img.copy()
     got_img = None
+    x0 = None
+    if head in ("fn", "call") and variant != "call-adaptive" or head in ("white", "color", "affine"):
+        bal = PLAIN[mode]()
+        if start == "prefit":
+            a1, b1 = make_map(rng, mode)
+            other = ref_apply(src_f, a1, b1 * scale) + 0.05 * scale * rng.uniform(-1, 1, dst.shape)
+            bal.find_balance(src, other)
+            x0 = stage_params(bal)
+        elif start == "manual":
+            a1, b1 = make_map(rng, mode)
+            bal.balance_scaling = a1.copy()
+            if mode == "affine":
+                bal.balance_translation = b1 * scale
+            x0 = (a1, b1 * scale)
     if head == "fn":
         fn = {"diagonal": cb.white_balance, "linear": cb.color_balance, "affine": cb.affine_balance}[mode]
         got = np.asarray(fn(src, src, dst))
         got_img = np.asarray(fn(img, src, dst))
     elif head == "call":
-        bal = PLAIN[mode]()
+        if variant == "call-adaptive":
+            bal = cb.AdaptiveBalance()
         got_img = np.asarray(bal(img, src, dst))
         got = np.asarray(bal.apply_balance(src))
     elif head == "adaptive":
         bal = cb.AdaptiveBalance()
-        bal.find_balance(src, dst, mode=mode)
+        if variant == "adaptive-default":
+            bal.find_balance(src, dst)
+        else:
+            bal.find_balance(src, dst, mode=mode)
         got = np.asarray(bal.apply_balance(src))
-        got_img = np.asarray(bal.apply_balance(img)) if bigger else None
+        got_img = np.asarray(bal.apply_balance(img))
     else:
-        bal = PLAIN[mode]()
         bal.find_balance(src, dst)
         got = np.asarray(bal.apply_balance(src))
-        got_img = np.asarray(bal.apply_balance(img)) if bigger else None
+        got_img = np.asarray(bal.apply_balance(img))
+    assert_untouched("source-swatches", src, src0, tags)
+    assert_untouched("destination-swatches", dst, dst0, tags)
+    assert_untouched("image", img, img0, tags)
+    labels = _sw_labels(sw) + (variant, f"data-{data}", f"start-{start}")
     if bigger:
         # structure of the class: diagonal balances map each unit colour to a multiple of itself,
         # diagonal and linear balances map black to black (exact: sums of exact zeros)
@@ -240,32 +314,31 @@ def check_recovers_exact_map(case):
         if mode == "diagonal" and np.any(off != 0.0):
             raise Violation("not-in-class:diagonal", f"{variant}: a white balance fitted to non-diagonal "
                             f"targets mixes channels (off-diagonal {float(np.abs(off).max()):.3e})", tags)
-        return Outcome(True, key=[sw, variant, case["mseed"], tmode, struct, "bigger"],
-                       labels=_sw_labels(sw) + (variant, "truth-bigger", f"map-{struct}"))
+        return Outcome(True, key=[sw, variant, case["mseed"], tmode, struct, data, start, "bigger"],
+                       labels=labels + ("truth-bigger", f"map-{struct}"))
     if got.shape != dst.shape:
         raise Violation("shape", f"{variant}: balanced swatches have shape {got.shape}", tags)
-    err = float(np.abs(got - dst).max())
-    if not err <= TOL_FIT:
-        ra, rb = ref_fit(mode, src, dst)
-        ref_err = float(np.abs(ref_apply(src, ra, rb) - dst).max())
-        if not ref_err <= TOL_FIT:
+    err = float(np.abs(got - dst_f).max())
+    if not err <= tol:
+        ra, rb = ref_fit(mode, src_f, dst_f, x0)
+        ref_err = float(np.abs(ref_apply(src_f, ra, rb) - dst_f).max())
+        if not ref_err <= tol:
             return Outcome(False, status="skipped", labels=("optimiser-stalled",))
-        raise Violation(f"not-recovered:{mode}", f"{variant} on an exact {tmode} map ({struct}): "
-                        f"max |apply(src) - dst| "
-                        f"= {err:.3e} (an independent Powell run reaches {ref_err:.1e})", tags)
-    if got_img is not None:
-        want = ref_apply(img, a, b)
-        # extrapolation from the swatches to arbitrary colours in [0,1]^3: the fitted parameters
-        # are determined to TOL_FIT / smallest singular value of the (centred) swatches (>= 0.075)
-        same_shape = got_img.shape == want.shape
-        e2 = float(np.abs(got_img - want).max()) if same_shape else float("inf")
-        if not e2 <= 40 * TOL_FIT:
-            raise Violation(f"image-not-mapped:{mode}", f"{variant}: image passed through the fitted balance "
-                            f"differs from the ground-truth map by {e2:.3e}", tags)
+        raise Violation(f"not-recovered:{mode}", f"{variant} on an exact {tmode} map ({struct}; swatches "
+                        f"{data}, object {start}): max |apply(src) - dst| "
+                        f"= {err:.3e} (tol {tol:.1e}; an independent Powell run reaches {ref_err:.1e})", tags)
+    want = ref_apply(img, a, b)
+    # extrapolation from the swatches to arbitrary colours in [0,1]^3 * scale: the fitted parameters
+    # are determined to tol / smallest singular value of the (centred) swatches (>= 0.075)
+    same_shape = got_img.shape == want.shape
+    e2 = float(np.abs(got_img - want).max()) if same_shape else float("inf")
+    if not e2 <= 40 * tol:
+        raise Violation(f"image-not-mapped:{mode}", f"{variant}: image passed through the fitted balance "
+                        f"differs from the ground-truth map by {e2:.3e} (swatches {data}, object {start})", tags)
     return Outcome(nontrivial=_nonsym(a) or tmode == "diagonal" and mode == "diagonal" and struct == "generic"
                    or struct == "offset",
-                   key=[sw, variant, case["mseed"], tmode, struct],
-                   labels=_sw_labels(sw) + (variant, f"truth-{tmode}", f"map-{struct}"))
+                   key=[sw, variant, case["mseed"], tmode, struct, data, start],
+                   labels=labels + (f"truth-{tmode}", f"map-{struct}"))
 
 
 # ---------------------------------------------------------------------------------------
@@ -386,6 +459,43 @@ def gen_staged(tier):
     })
 
 
+def _all_orders():
+    """Every ordered pair and triple of staged modes (9 + 27)."""
+    import itertools
+
+    return [list(m) for n in (2, 3) for m in itertools.product(MODES, repeat=n)]
+
+
+def enum_staged(tier):
+    """Every ordered pair / triple of modes x layout, deterministically (the random sub-check
+    does not reach each of the 36 orders in the quick tier)."""
+    out = []
+    subs = ["all", "head", "rest"]
+    for k in range(1 if tier == "quick" else 8):
+        for i, modes in enumerate(_all_orders()):
+            # quick tier: one layout per order (alternating), thorough: both
+            for j, (layout, n) in enumerate((("4x6", 24), ("flat", 12 + 3 * k))):
+                if tier == "quick" and j != i % 2:
+                    continue
+                out.append({"sw": {"layout": layout, "N": n, "pseed": 2000 + k}, "modes": modes,
+                            "subsets": [subs[(i + j + s) % 3] for s in range(3)],
+                            "dst": ["exact", "noisy"][(i + j + k) % 2],
+                            "structs": [STRUCTS[(i + s) % 3] if (i + k) % 4 == 0 else "generic" for s in range(3)],
+                            "mseed": 500 + 7 * k + i})
+    return out
+
+
+def enum_composed(tier):
+    """Chains over every ordered pair / triple of modes, deterministically."""
+    out = []
+    for k in range(1 if tier == "quick" else 8):
+        for i, modes in enumerate(_all_orders()):
+            layout, n = (("4x6", 24), ("flat", 10 + 2 * k))[(i + k) % 2]
+            out.append({"scenario": "chain", "sw": {"layout": layout, "N": n, "pseed": 3000 + k},
+                        "modes": modes, "second_on": "all", "structs": ["generic"] * 3, "mseed": 900 + 5 * k + i})
+    return out
+
+
 def _usable_subset(sw, which):
     # keep >= 6 swatches in every fitted sub-set
     if sw["layout"] == "flat" and (which == "rest" and sw["N"] < 10 or which == "head"):
@@ -405,9 +515,11 @@ def check_staged_equals_sequential(case):
     bal = cb.AdaptiveBalance()
     stages = []
     n = 0
+    src0 = src.copy()
     for k, mode in enumerate(modes):
         which = _usable_subset(sw, case["subsets"][k])
         dst, _, _ = _targets(rng, src, case["dst"], mode, structs[k])
+        dst0 = dst.copy()
         s_sub, d_sub = subset(src, which), subset(dst, which)
         # the stage balance, obtained independently: the plain class fitted on the swatches as the
         # accumulated balance maps them right now (bit-identical input, Powell is deterministic)
@@ -416,6 +528,9 @@ def check_staged_equals_sequential(case):
         plain.find_balance(pre, d_sub)
         stages.append(stage_params(plain))
         bal.find_balance(s_sub, d_sub, mode=mode)
+        # the sources are among the probes below and are fitted again in the next stage
+        assert_untouched("source-swatches", src, src0, tags)
+        assert_untouched("destination-swatches", dst, dst0, tags)
         for x in x_list:
             seq = x
             mag = float(np.abs(x).max())
@@ -525,7 +640,9 @@ def gen_rowvec(tier):
             st.tuples(st.integers(1, 6), st.integers(1, 6), st.just(3)).map(list),
             st.tuples(st.integers(1, 30), st.just(3)).map(list),
             st.just([3]), st.just([4, 6, 3])),
-        "values": st.sampled_from(["dyadic", "float", "uint8", "uint16"]),
+        # "float32": dyadic values stored as float32 (what img_as_float leaves of a float32 image),
+        # "int64": signed integer-typed colours
+        "values": st.sampled_from(["dyadic", "float", "uint8", "uint16", "float32", "int64"]),
         # structure of the matrix written into the balance: generic, exactly the identity (with a
         # generic translation where the class has one), or the identity up to dyadic perturbations
         # of 2^-30 (products with the dyadic payloads stay exact in double precision)
@@ -539,8 +656,13 @@ def check_row_vector(case):
     cls = case["cls"]
     bal = {"white": cb.WhiteBalance, "color": cb.ColorBalance, "affine": cb.AffineBalance,
            "adaptive": cb.AdaptiveBalance}[cls]()
-    dy = case["values"] in ("dyadic", "uint8", "uint16")
-    if case["values"] in ("uint8", "uint16"):
+    dy = case["values"] in ("dyadic", "uint8", "uint16", "float32", "int64")
+    if case["values"] in ("float32", "int64"):
+        x = rng.integers(-16, 17, size=case["shape"])
+        x = x.astype(np.int64) if case["values"] == "int64" else (x / 8.0).astype(np.float32)
+        a = rng.integers(-16, 17, size=(3, 3)) / 8.0
+        b = rng.integers(-16, 17, size=3) / 8.0
+    elif case["values"] in ("uint8", "uint16"):
         # integer-typed swatches / images (as read from file): the balance acts on their values
         x = rng.integers(0, 256 if case["values"] == "uint8" else 65536, size=case["shape"]).astype(case["values"])
         a = rng.integers(-16, 17, size=(3, 3)) / 8.0
@@ -564,9 +686,11 @@ def check_row_vector(case):
     bal.balance_scaling = a.copy()
     if cls in ("affine", "adaptive"):
         bal.balance_translation = b.copy()
+    x0 = x.copy()
     got = np.asarray(bal.apply_balance(x))
-    want = ref_apply(x.astype(float), a, b)
+    want = ref_apply(x0.astype(float), a, b)
     tags = {"cls": cls, "ndim": len(case["shape"]), "values": case["values"], "matrix": case.get("matrix", "generic")}
+    assert_untouched("image", x, x0, tags)
     if got.shape != want.shape:
         raise Violation("shape", f"apply_balance: {x.shape} -> {got.shape}", tags)
     tol = 0.0 if dy else 16 * EPS * (3 * np.abs(a).max() * np.abs(x).max() + np.abs(b).max())
@@ -587,7 +711,13 @@ _RULE = ("Hypothesis draws the swatch layout (4x6x3 chart or flat Nx3, N 6..40),
          "orthonormal frame x singular values in [0.3,1] (cond <= ~20), ground-truth maps near the "
          "identity (D = I +- 0.3, A = I + 0.15 U(-1,1), |b| <= 0.1) including the structured members "
          "of the classes (pure colour shift A = I, b != 0; the identity map; matrices within 2^-28 of "
-         "the identity for the application law); one ColorCorrection object applied to sequences of "
+         "the identity for the application law); swatches handed to the fits as float64, float32 (as "
+         "ColorCorrection passes them), on the 8-bit scale as uint8 / float64 and on the 16-bit scale as "
+         "uint16, fitted on a fresh object or (plain classes, callable form) on one fitted before / "
+         "parametrised by hand; AdaptiveBalance also through its default mode and its callable form; "
+         "every ordered pair / triple of staged modes is enumerated once per tier and layout; "
+         "ColorCorrection with every subset of its balancing options left to their defaults, on uint8 / "
+         "uint16 / float32 / float64 photographs; one ColorCorrection object applied to sequences of "
          "2-3 checker images (same / drift below an 8-bit step / illumination change / unrelated); "
          "non-trivial = a non-symmetric "
          "ground-truth / stage matrix (|A - A^T| > 0.05), a non-commuting stage list, or a fit not "
@@ -640,6 +770,12 @@ def check_reset(case):
 # ---------------------------------------------------------------------------------------
 
 
+CC_OPTIONS = ("whitebalancing", "colorbalancing", "balancing")
+# documented defaults of the options (config docstring: white balancing "default is True"; the
+# colour-balance stage is affine and the balance classes of this module are used unless asked otherwise)
+CC_DEFAULTS = {"whitebalancing": True, "colorbalancing": "affine", "balancing": "darsia"}
+
+
 def gen_colorcorrection(tier):
     @st.composite
     def strat(draw):
@@ -648,6 +784,11 @@ def gen_colorcorrection(tier):
                 "whitebalancing": draw(st.booleans()),
                 "colorbalancing": draw(st.sampled_from(["affine", "linear"])),
                 "truth": draw(st.sampled_from(["affine", "affine", "linear"])),
+                # options left out of the config (their defaults apply)
+                "omit": draw(st.one_of(st.just([]), st.lists(st.sampled_from(CC_OPTIONS), unique=True,
+                                                             min_size=1, max_size=3).map(sorted))),
+                # storage of the photograph (all documented input types of correct_array)
+                "dtype": draw(st.sampled_from(["uint8", "uint8", "uint16", "float32", "float64"])),
                 "mseed": draw(st.integers(0, 2**16))}
 
     return strat()
@@ -656,14 +797,28 @@ def gen_colorcorrection(tier):
 def check_colorcorrection_stages(case):
     """ColorCorrection (darsia balancing) on a synthetic checker image equals applying the stage
     balances one after the other: WhiteBalance fitted on the grey row (if enabled), then the plain
-    ColorBalance ("linear") or AffineBalance ("affine") fitted on the pre-balanced colour rows."""
+    ColorBalance ("linear") or AffineBalance ("affine") fitted on the pre-balanced colour rows.
+
+    Two oracles: (i) the stages fitted on the *known* swatch colours (independent of the swatch
+    extraction, which is exact only to ~2e-5, amplified by the fits -> loose tolerance; with an
+    affine last stage most of what an earlier stage does is absorbed at that level); (ii) the
+    stages fitted on the swatches as extracted from this very image (public CustomColorChecker, same
+    k-means seed): Powell is deterministic, so only the rounding of the composition and the final
+    float32 cast remain -> a few float32 ulps."""
     import cv2
+    import skimage
 
     import darsia
+    from darsia.corrections.color.colorcorrection import CustomColorChecker
     from vf.props import c10
 
     h, w = case["shape"]
     rng = np.random.default_rng(case["mseed"])
+    omit = case.get("omit", [])
+    dtype = case.get("dtype", "uint8")
+    opts = {"whitebalancing": case["whitebalancing"], "colorbalancing": case["colorbalancing"],
+            "balancing": "darsia"}
+    eff = {k: (CC_DEFAULTS[k] if k in omit else v) for k, v in opts.items()}
     ref = rng.integers(40, 216, size=(4, 6, 3)).astype(float) / 255.0
     # observed colours = inverse-ish ground-truth map of the reference, so the fitted map is non-trivial
     A = np.eye(3) + 0.12 * rng.uniform(-1, 1, size=(3, 3))
@@ -671,33 +826,56 @@ def check_colorcorrection_stages(case):
     obs = np.clip((ref - b) @ np.linalg.inv(A), 0.05, 0.95)
     colors = np.round(obs * 255).astype(np.uint8)
     img = c10._checker_image(h, w, colors, 0)
-    cfg = {"roi": c10._color_roi(h, w, 0), "active": True, "balancing": "darsia",
-           "colorbalancing": case["colorbalancing"], "whitebalancing": case["whitebalancing"], "clip": False}
-    corr = darsia.ColorCorrection(base=c10._custom_checker(ref.astype(np.float32)), config=cfg)
+    if dtype == "uint16":
+        img = img.astype(np.uint16) * 257
+    elif dtype != "uint8":
+        img = (img / 255.0).astype(dtype)
+    cfg = {"roi": c10._color_roi(h, w, 0), "active": True, "clip": False}
+    cfg.update({k: v for k, v in opts.items() if k not in omit})
+    ref32 = ref.astype(np.float32)
+    corr = darsia.ColorCorrection(base=c10._custom_checker(ref32), config=cfg)
+    img0 = img.copy()
     cv2.setRNGSeed(0)
     got = np.asarray(corr.correct_array(img), dtype=float)
-    t = {"wb": case["whitebalancing"], "cb": case["colorbalancing"], "truth": case["truth"]}
-    # sequential reference on the known swatch colours
-    sw = colors.astype(float) / 255.0
-    x = img.astype(float) / 255.0
-    cur = sw.copy()
-    if case["whitebalancing"]:
-        wb = cb.WhiteBalance()
-        wb.find_balance(cur[-1], ref[-1])
-        cur = wb.apply_balance(cur)
-        x = wb.apply_balance(x)
-    stage = cb.AffineBalance() if case["colorbalancing"] == "affine" else cb.ColorBalance()
-    stage.find_balance(cur[:-1], ref[:-1])
-    want = stage.apply_balance(x)
-    err = float(np.abs(got - want).max())
+    t = {"wb": eff["whitebalancing"], "cb": eff["colorbalancing"], "truth": case["truth"],
+         "omit": "+".join(omit), "dtype": dtype}
+    labels = (f"wb-{eff['whitebalancing']}", f"cb-{eff['colorbalancing']}", f"truth-{case['truth']}",
+              f"img-{dtype}") + (tuple(f"omit-{k}" for k in omit) or ("all-options-given",))
+    xf = skimage.img_as_float(img0)
+
+    def sequential(sw, refsw):
+        x, cur = xf, sw
+        if eff["whitebalancing"]:
+            wb = cb.WhiteBalance()
+            wb.find_balance(cur[-1], refsw[-1])
+            cur = wb.apply_balance(cur)
+            x = wb.apply_balance(x)
+        stage = cb.AffineBalance() if eff["colorbalancing"] == "affine" else cb.ColorBalance()
+        stage.find_balance(cur[:-1], refsw[:-1])
+        return np.asarray(stage.apply_balance(x), dtype=float), type(stage).__name__
+
+    what = (f"ColorCorrection(whitebalancing={eff['whitebalancing']}, colorbalancing="
+            f"{eff['colorbalancing']!r}{', defaults for ' + '/'.join(omit) if omit else ''}) on a {dtype} image")
+    # (i) sequential reference on the known swatch colours
+    want, name = sequential(colors.astype(float) / 255.0, ref)
+    err = float(np.abs(got - want).max()) if got.shape == want.shape else float("inf")
     # swatch extraction (k-means on uniform patches) is exact to ~2e-5; the Powell fits amplify that
-    if err > 3e-3:
-        raise Violation(f"colorcorrection-not-staged:{case['colorbalancing']}",
-                        f"ColorCorrection(whitebalancing={case['whitebalancing']}, colorbalancing="
-                        f"{case['colorbalancing']!r}) differs from white balance then "
-                        f"{type(stage).__name__} applied in sequence by {err:.2e}", t)
-    return Outcome(True, case, (f"wb-{case['whitebalancing']}", f"cb-{case['colorbalancing']}",
-                                f"truth-{case['truth']}"))
+    if not err <= 3e-3:
+        raise Violation(f"colorcorrection-not-staged:{eff['colorbalancing']}",
+                        f"{what} differs from white balance then {name} applied in sequence by {err:.2e}", t)
+    # (ii) sequential reference on the swatches extracted from this image (the ROI is the whole image)
+    cv2.setRNGSeed(0)
+    sw32 = CustomColorChecker(image=xf).swatches_rgb
+    want2, _ = sequential(sw32, ref32)
+    want2 = want2.astype(np.float32).astype(float)
+    tol = 4 * 2.0 ** -23 * max(1.0, float(np.abs(want2).max()))
+    err2 = float(np.abs(got - want2).max())
+    if not err2 <= tol:
+        raise Violation(f"colorcorrection-stage-differs:{eff['colorbalancing']}",
+                        f"{what} differs from the stage balances (white balance on the grey row, then "
+                        f"{name} on the colour rows, fitted to the swatches of this image) applied in "
+                        f"sequence by {err2:.2e} (tol {tol:.1e})", t)
+    return Outcome(True, case, labels, evals=2)
 
 
 # ---------------------------------------------------------------------------------------
@@ -821,18 +999,34 @@ PROP = Prop(
         "identical output to a fresh object on the same image",
         "targets of a bigger class than the fitted one: only the class structure is asserted (white "
         "balance stays diagonal, diagonal / linear balances map black to black)",
+        "the balances are scale-free least-squares fits: on swatches of the 8 / 16 bit scale (integer-typed "
+        "or real) the recovery tolerance is 1e-6 x scale (measured <= 2e-11 x scale), for float32 targets "
+        "plus half a float32 ulp of the targets; a miss from a non-identity start is reported only if the "
+        "reference Powell run started at the same balance reaches the tolerance",
+        "ColorCorrection is compared (a) with the stage balances fitted to the known swatch colours (3e-3: "
+        "swatch extraction error amplified by the fits) and (b) with the stage balances fitted to the "
+        "swatches extracted from the same image by the public CustomColorChecker under the same k-means "
+        "seed (4 float32 ulps: Powell is deterministic, only the rounding of the composition and the "
+        "final float32 cast remain); omitted options take whitebalancing=True (documented), "
+        "colorbalancing='affine', balancing='darsia' (attribute docstrings / code defaults)",
+        "find_balance / apply_balance / the callable form do not modify the arrays they are given "
+        "(ColorCorrection hands them views of its stored reference swatches and the caller's image)",
     ],
     subs=[
         Sub("recovers_exact_map", check_recovers_exact_map, gen=gen_exact,
-            n={"quick": 480, "thorough": 12000}, shards={"quick": 4, "thorough": 16}),
+            n={"quick": 330, "thorough": 12000}, shards={"quick": 6, "thorough": 16}),
         Sub("recovers_exact_map_each_class", check_recovers_exact_map, enum=enum_exact,
             shards={"quick": 4, "thorough": 16}),
         Sub("residual_never_increases", check_residual, gen=gen_residual,
             n={"quick": 320, "thorough": 8000}, shards={"quick": 4, "thorough": 16}),
         Sub("staged_equals_sequential", check_staged_equals_sequential, gen=gen_staged,
-            n={"quick": 160, "thorough": 4000}, shards={"quick": 4, "thorough": 16}),
+            n={"quick": 120, "thorough": 4000}, shards={"quick": 4, "thorough": 16}),
+        Sub("staged_equals_sequential_each_order", check_staged_equals_sequential, enum=enum_staged,
+            shards={"quick": 3, "thorough": 16}),
         Sub("staged_recovers_composed_map", check_staged_recovers_composed_map, gen=gen_composed,
-            n={"quick": 240, "thorough": 6000}, shards={"quick": 3, "thorough": 16}),
+            n={"quick": 180, "thorough": 6000}, shards={"quick": 3, "thorough": 16}),
+        Sub("staged_recovers_composed_map_each_order", check_staged_recovers_composed_map, enum=enum_composed,
+            shards={"quick": 2, "thorough": 16}),
         Sub("reset_gives_fresh_balance", check_reset, gen=gen_reset,
             n={"quick": 60, "thorough": 1500}, shards={"quick": 4, "thorough": 16}),
         Sub("colorcorrection_is_staged_composition", check_colorcorrection_stages, gen=gen_colorcorrection,
